@@ -37,6 +37,9 @@ pub struct GenCfg {
     pub dup_terms: bool,
     /// ids at the borders 0 / 9_999_999
     pub border_ids: bool,
+    /// occasionally add several hundred records of one kind (more than 255) and
+    /// one record linked to (almost) every term
+    pub bulk_recs: bool,
 }
 
 impl GenCfg {
@@ -52,6 +55,7 @@ impl GenCfg {
             empty_recs: true,
             dup_terms: false,
             border_ids: true,
+            bulk_recs: false,
         }
     }
     pub fn standard(mut self) -> Self {
@@ -75,6 +79,10 @@ impl GenCfg {
     }
     pub fn recs(mut self, n: usize) -> Self {
         self.max_recs = n;
+        self
+    }
+    pub fn bulk(mut self) -> Self {
+        self.bulk_recs = true;
         self
     }
     pub fn no_empty_recs(mut self) -> Self {
@@ -335,7 +343,9 @@ pub fn realise(raw: &RawFacts, cfg: &GenCfg) -> Facts {
             // wide fan below few hubs
             3 => {
                 if node.nparents > 0 {
-                    ps.push(pick(node.picks[0], i.min(3)));
+                    // 1-3 hubs; with a single hub it has more children than a group stores inline
+                    let hubs = 1 + (raw.nodes[0].idr % 3) as usize;
+                    ps.push(pick(node.picks[0], i.min(hubs)));
                 }
             }
             // long chain plus shortcuts to a much higher ancestor
@@ -343,6 +353,13 @@ pub fn realise(raw: &RawFacts, cfg: &GenCfg) -> Facts {
                 ps.push(i - 1);
                 if node.nparents >= 2 && i >= 3 {
                     ps.push(pick(node.picks[0], (i - 2).max(1)));
+                }
+            }
+            // fan-in: the last term is a child of every earlier term below the first free
+            // node (more parents than an id group stores inline when n > 31)
+            5 if i == n - 1 && n > 3 => {
+                for q in first_free.max(1)..i {
+                    ps.push(q);
                 }
             }
             // random
@@ -517,6 +534,17 @@ pub fn realise(raw: &RawFacts, cfg: &GenCfg) -> Facts {
         recs,
         ann_calls: Vec::new(),
     };
+    if cfg.bulk_recs && n > 0 && raw.keys.len() >= 64 && raw.keys[63] % 40 == 0 {
+        // several hundred records of one kind: more than any 8-bit counter can hold
+        let k = (raw.keys[62] % 3) as usize;
+        let count = 256 + (raw.keys[61] % 90) as u32;
+        for j in 0..count {
+            let t = ids[pick(raw.keys[(j as usize) % 60].wrapping_mul(j as u16 | 1), n)];
+            f.recs[k].push(RecFact { id: 1000 + j, name: format!("b{j}"), terms: vec![t] });
+        }
+        // and one record that is directly linked to every term
+        f.recs[(k + 1) % 3].push(RecFact { id: 999, name: "everywhere".into(), terms: ids.clone() });
+    }
     if !cfg.empty_recs {
         for k in 0..3 {
             f.recs[k].retain(|r| !r.terms.is_empty());
@@ -618,6 +646,15 @@ pub fn labels(f: &Facts, m: &Model) -> Vec<&'static str> {
     }
     if m.parents.iter().any(|p| p.len() >= 2) {
         l.push("multi-parent");
+    }
+    if m.parents.iter().any(|p| p.len() > 30) {
+        l.push("parents>30");
+    }
+    if m.children.iter().any(|p| p.len() > 30) {
+        l.push("children>30");
+    }
+    if (0..3).any(|k| m.direct[k].len() > 255) {
+        l.push("records>255");
     }
     for k in 0..3 {
         if m.direct[k].is_empty() {
